@@ -29,19 +29,29 @@ type Op struct {
 	A int    `json:"a"`
 	B int    `json:"b,omitempty"`
 	N int    `json:"n,omitempty"` // pointer count for app (0 = configuration default)
+	// Pin: append with AppendOptions.Pin (the entry block is pinned after it is written)
+	Pin bool `json:"pin,omitempty"`
 }
 
 func (o Op) String() string {
 	switch o.K {
 	case "app":
-		if o.N != 0 {
-			return fmt.Sprintf("app(%d,pc=%d)", o.A, o.N)
+		pin := ""
+		if o.Pin {
+			pin = ",pin"
 		}
-		return fmt.Sprintf("app(%d)", o.A)
+		if o.N != 0 {
+			return fmt.Sprintf("app(%d,pc=%d%s)", o.A, o.N, pin)
+		}
+		return fmt.Sprintf("app(%d%s)", o.A, pin)
 	case "join":
 		return fmt.Sprintf("join(%d<-%d)", o.A, o.B)
 	case "setid":
 		return fmt.Sprintf("setid(%d,w%d)", o.A, o.B)
+	case "appfixed":
+		return fmt.Sprintf("app(%d,\"dup\")", o.A)
+	case "appempty":
+		return fmt.Sprintf("app(%d,\"\")", o.A)
 	}
 	return fmt.Sprintf("%s(%d)", o.K, o.A)
 }
@@ -59,10 +69,16 @@ type Config struct {
 	Name    string
 	Writers []int // writer identity per replica
 	HashTie bool  // SortByEntryHash instead of the default ordering
+	// FirstWins: sorting.FirstWriteWins as the log's ordering (a custom SortFn that does not put the largest
+	// clock first). Only used by checks whose oracle does not depend on what the linearisation looks like.
+	FirstWins bool
 	PC      int   // default pointer count for appends
 	// StartClock[i] > 0 creates replica i with a Lamport clock already at that time.
 	StartClock []int
 	IO         func() iface.IO // codec per world (nil: default)
+	// IOFor / SortFor, when set, give replica i its own codec / ordering (mixed configurations)
+	IOFor   func(i int) iface.IO
+	SortFor func(i int) iface.EntrySortFn
 	AC         func(replica int) accesscontroller.Interface
 }
 
@@ -70,6 +86,9 @@ type Config struct {
 func (c *Config) SortFnOrNil() iface.EntrySortFn { return c.sortFn() }
 
 func (c *Config) sortFn() iface.EntrySortFn {
+	if c.FirstWins {
+		return sorting.FirstWriteWins
+	}
 	if c.HashTie {
 		return sorting.SortByEntryHash
 	}
@@ -132,8 +151,14 @@ func NewWorld(cfg *Config) *World {
 	w.M.Name = func(uid int) string { return w.Ent[uid].GetHash().String() }
 	for i, wr := range cfg.Writers {
 		opts := &ipfslog.LogOptions{ID: "X", SortFn: cfg.sortFn()}
+		if cfg.SortFor != nil {
+			opts.SortFn = cfg.SortFor(i)
+		}
 		if cfg.IO != nil {
 			opts.IO = cfg.IO()
+		}
+		if cfg.IOFor != nil {
+			opts.IO = cfg.IOFor(i)
 		}
 		if cfg.AC != nil {
 			opts.AccessController = cfg.AC(i)
@@ -187,7 +212,7 @@ func (w *World) apply(o Op, st *Step) {
 	switch o.K {
 	case "app":
 		w.NApp++
-		e, err := w.Logs[o.A].Append(world.Ctx, []byte(fmt.Sprintf("p%d", w.NApp)), &ipfslog.AppendOptions{PointerCount: w.pc(o)})
+		e, err := w.Logs[o.A].Append(world.Ctx, []byte(fmt.Sprintf("p%d", w.NApp)), &ipfslog.AppendOptions{PointerCount: w.pc(o), Pin: o.Pin})
 		st.Err, st.Entry = err, e
 		if err == nil {
 			me := w.M.Append(w.ML[o.A])
@@ -207,6 +232,47 @@ func (w *World) apply(o Op, st *Step) {
 			w.UID[e.GetHash().String()] = me.UID
 			w.Ent = append(w.Ent, e)
 			w.Returned = append(w.Returned, len(w.St.Adds))
+		}
+	case "appempty":
+		// an entry with an empty payload is a legal entry (Append accepts, signs and stores it)
+		w.NApp++
+		e, err := w.Logs[o.A].Append(world.Ctx, []byte{}, &ipfslog.AppendOptions{PointerCount: w.pc(o)})
+		st.Err, st.Entry = err, e
+		if err == nil {
+			me := w.M.Append(w.ML[o.A])
+			if at := e.GetClock().GetTime(); at != me.Time {
+				w.M.Entries[me.UID].Time = at
+				if at > w.ML[o.A].Clock {
+					w.ML[o.A].Clock = at
+				}
+			}
+			st.UID = me.UID
+			w.UID[e.GetHash().String()] = me.UID
+			w.Ent = append(w.Ent, e)
+			w.Returned = append(w.Returned, len(w.St.Adds))
+		}
+	case "appfixed":
+		// the same payload every time: two replicas of one identity in the same state produce the very same entry
+		e, err := w.Logs[o.A].Append(world.Ctx, []byte("dup"), &ipfslog.AppendOptions{PointerCount: w.pc(o)})
+		st.Err, st.Entry = err, e
+		if err == nil {
+			me := w.M.Append(w.ML[o.A])
+			if u, known := w.UID[e.GetHash().String()]; known {
+				// an entry identical to one that already exists: it IS that entry
+				w.M.Entries = w.M.Entries[:len(w.M.Entries)-1]
+				delete(w.ML[o.A].Set, me.UID)
+				w.ML[o.A].Set[u] = true
+				st.UID = u
+			} else {
+				w.M.Entries[me.UID].Time = e.GetClock().GetTime()
+				st.UID = me.UID
+				w.UID[e.GetHash().String()] = me.UID
+				w.Ent = append(w.Ent, e)
+				w.Returned = append(w.Returned, len(w.St.Adds))
+			}
+			if t := e.GetClock().GetTime(); t > w.ML[o.A].Clock {
+				w.ML[o.A].Clock = t
+			}
 		}
 	case "join":
 		_, st.Err = w.Logs[o.A].Join(w.Logs[o.B], -1)
